@@ -601,7 +601,8 @@ impl ImageHandler for DummyImageHandler {
 ///
 /// Reference: [Kitty Graphic Protocol](https://sw.kovidgoyal.net/kitty/graphics-protocol/)
 pub struct KittyImageHandler {
-    imgs: HashMap<u64, Image>, // hash -> image
+    imgs: HashMap<u64, Image>, // id -> image (data has been transmitted)
+    ids: HashMap<u64, u64>,    // content hash -> id
     suppress: Option<u8>,      // 1 - suppress OK, 2 - suppress all
 }
 
@@ -609,8 +610,29 @@ impl KittyImageHandler {
     pub fn new() -> Self {
         Self {
             imgs: Default::default(),
+            ids: Default::default(),
             suppress: None,
         }
+    }
+
+    /// Identification for image data
+    ///
+    /// Derived from the content hash. Zero is not a valid image id (the protocol
+    /// reads it as "unspecified"), so identifiers are in the range `1..=KITTY_MAX_ID`.
+    /// The hash has more bits than an identifier: when a different content already
+    /// holds the derived identifier the next free one is taken, and the choice is
+    /// remembered, so a content keeps its id and two contents never share one.
+    fn image_id(&mut self, img: &Image) -> u64 {
+        let hash = img.hash();
+        if let Some(id) = self.ids.get(&hash) {
+            return *id;
+        }
+        let mut id = hash % KITTY_MAX_ID + 1;
+        while self.ids.values().any(|taken| *taken == id) {
+            id = id % KITTY_MAX_ID + 1;
+        }
+        self.ids.insert(hash, id);
+        id
     }
 
     /// Enable suppression of OK responses from the terminal
@@ -633,14 +655,6 @@ const KITTY_MAX_ID: u64 = 4294967295;
 /// We are using position to derive placement_id, and this is the limit
 /// on terminal dimension (width and height).
 const KITTY_MAX_DIM: u64 = 65536;
-
-/// Identification for image data
-///
-/// Zero is not a valid image id (the protocol reads it as "unspecified"),
-/// so identifiers are in the range `1..=KITTY_MAX_ID`.
-fn kitty_image_id(img: &Image) -> u64 {
-    img.hash() % KITTY_MAX_ID + 1
-}
 
 /// Identification of particular placement of the image
 ///
@@ -681,7 +695,7 @@ impl ImageHandler for KittyImageHandler {
         if img.height() == 0 || img.width() == 0 {
             return Ok(());
         }
-        let img_id = kitty_image_id(img);
+        let img_id = self.image_id(img);
 
         // q   - suppress response from the terminal 1 - OK only, 2 - All.
         let suppress = self.suppress.unwrap_or(0);
@@ -783,10 +797,10 @@ impl ImageHandler for KittyImageHandler {
             Some(pos) => write!(
                 out,
                 "\x1b_Ga=d,d=i,i={},p={}\x1b\\",
-                kitty_image_id(img),
+                self.image_id(img),
                 kitty_placement_id(pos),
             )?,
-            None => write!(out, "\x1b_Ga=d,d=i,i={}\x1b\\", kitty_image_id(img))?,
+            None => write!(out, "\x1b_Ga=d,d=i,i={}\x1b\\", self.image_id(img))?,
         }
         Ok(())
     }
